@@ -6,11 +6,12 @@ from typing import Any, Dict, Optional
 
 from vlib import codec_common as CC
 from vlib import frontend, refcodec
-from vlib.runner import REPO, Ctx, HarnessError, Violation, hyp_run, unpickle_b64
+from vlib.runner import REPO, Ctx, HarnessError, Violation, hyp_run, pickle_b64, unpickle_b64
 
 LEVEL = "exploration"
 RULE = (
-    "Same generator as C01. Oracle (a) bytes(serde.encode) == reference canonical encoder (independent "
+    "Same generator as C01 (incl. one case in four continued by 1-3 same-named edited variants of the schema and the "
+    "original again, all in one interpreter, the previous schema object dropped before the next is loaded). Oracle (a) bytes(serde.encode) == reference canonical encoder (independent "
     "re-implementation, self-tested on the 26 project vectors at start-up), (b) serde.decode(reference bytes) "
     "== value, (c) the project vectors themselves through the Python codec in both directions, (d) four directed values whose "
     "string / array counts do not fit 8 or 16 bits (256, 65535, 65536, 70001). Non-trivial = "
@@ -140,30 +141,48 @@ def run_shard(ctx: Ctx) -> None:
         if bad:
             rec.violations.append({**bad, "seed": ctx.base_seed, "shard": 0})
 
-    def body(case: Any) -> None:
-        s, name, vals = case
-        rec.frontend_attempts += 1
-        fcp, text, err = frontend.parse_schema(s)
-        if fcp is None:
-            rec.rejected_by_frontend += 1
-            return
-        nfields = len(s.struct(name).fields)
-        for v in vals:
-            ref, classes, _ = CC.classify(s, name, v)
-            rec.eval()
-            rec.cls(*classes)
-            cj = CC.case_json(s, name, v, canonical=ref.hex())
-            cl = set(classes)
-            if nfields >= 2 and len(ref) >= 2 and cl & {"sub_byte", "length_prefixed", "optional_some",
-                                                         "ids_out_of_order", "misaligned_opt"}:
-                rec.nt([cj["schema_text"], name, cj["value"]])
-                rec.sample({"schema": text, "struct": name, "value": cj["value"], "canonical": ref.hex(),
-                            "classes": classes})
-            msg = check_value(fcp, s, name, v, ref, ctx.known, rec)
-            if msg:
-                raise Violation(msg, cj)
+    def body(steps: Any) -> None:
+        import gc
 
-    hyp_run(ctx, CC.codec_case(ctx.tier, 8), body, ctx.n(4000, 24000))
+        for k, (s, name, vals) in enumerate(steps):
+            rec.frontend_attempts += 1
+            fcp, text, err = frontend.parse_schema(s)
+            if fcp is None:
+                rec.rejected_by_frontend += 1
+                if k == 0:
+                    return
+                continue
+            nfields = len(s.struct(name).fields)
+            for v in vals:
+                ref, classes, _ = CC.classify(s, name, v)
+                rec.eval()
+                rec.cls(*classes)
+                if k:
+                    rec.cls("after_same_named_variant")
+                cj = CC.case_json(s, name, v, canonical=ref.hex())
+                cl = set(classes)
+                if nfields >= 2 and len(ref) >= 2 and cl & {"sub_byte", "length_prefixed", "optional_some",
+                                                             "ids_out_of_order", "misaligned_opt"}:
+                    rec.nt([cj["schema_text"], name, cj["value"]])
+                    rec.sample({"schema": text, "struct": name, "value": cj["value"], "canonical": ref.hex(),
+                                "classes": classes, "schemas_loaded_before_in_this_history": k})
+                msg = check_value(fcp, s, name, v, ref, ctx.known, rec)
+                if msg:
+                    if k:
+                        cj["history_pickle"] = pickle_b64(steps[: k + 1])
+                        msg = f"after {k} same-named schema(s) were used in this process: " + msg
+                    raise Violation(msg, cj)
+            del fcp
+            gc.collect()
+
+    hyp_run(ctx, CC.codec_history(ctx.tier, 8), body, ctx.n(4000, 24000))
+
+    def body_alt(c: Any) -> None:
+        steps, cycles = c
+        rec.cls("alternation_history")
+        body([steps[i % 2] for i in range(2 * cycles)])
+
+    hyp_run(ctx, CC.codec_alternation(ctx.tier), body_alt, ctx.n(48, 480), tag="alternate", shrink_cap=40)
 
 
 def replay(case: Dict[str, Any]) -> Optional[str]:
@@ -177,11 +196,25 @@ def replay(case: Dict[str, Any]) -> Optional[str]:
 
         bad = check_vectors(load_known("C02"))
         return bad["message"] if bad else None
+    from vlib.runner import load_known
+
+    if case.get("history_pickle"):
+        import gc
+
+        for hs, hname, hvals in unpickle_b64(case["history_pickle"]):
+            fcp, _t, err = frontend.parse_schema(hs)
+            if fcp is None:
+                continue
+            for hv in hvals:
+                msg = check_value(fcp, hs, hname, hv, refcodec.encode(hs, hname, hv), load_known("C02"))
+                if msg:
+                    return msg
+            del fcp
+            gc.collect()
+        return None
     s = unpickle_b64(case["schema_pickle"])
     v = unpickle_b64(case["value_pickle"])
     fcp, text, err = frontend.parse_schema(s)
     if fcp is None:
         raise HarnessError(f"front end rejects the replay schema: {err}")
-    from vlib.runner import load_known
-
     return check_value(fcp, s, case["struct"], v, refcodec.encode(s, case["struct"], v), load_known("C02"))
